@@ -123,7 +123,7 @@ func scBulkStop(r *Run) {
 		if !WithTimeout(r, 30*time.Second, func() { x.Close() }) {
 			r.NoLeakCheck = true
 			class := "C16/close-does-not-return"
-			if tubes.VerifState(x) == "created" {
+			if tubes.VerifState(x) == "created" || !tubes.VerifInitiated(x) {
 				class += "/tube-never-initiated" // (the listed finding D23)
 			}
 			r.Violate(class, "bulk transfer interrupted: %s Close did not return within 30 simulated seconds (state %s); goroutines:\n  %s", name, tubes.VerifState(x), BlockedSummary())
